@@ -449,7 +449,7 @@ pub fn got_type_ok(stderr: &str, want: &str) -> Result<(), String> {
 }
 
 pub fn run(ctx: &Ctx) {
-    ctx.set_rule("the full matrix: 15 binary operators x 8 x 8 ordered kinds (plain form), 5 arithmetic operators x 64 x 4 op-assign target forms, 35 typed contexts x 8 kinds x 2 representatives, every out-of-domain operator cell again over 2..12 look-alike values per kind (numeric strings, empty / one-element / 70-element containers, 0 / 1 / large integers; quick: one pair per cell plus a seventh of the rest), type functions x kinds; oracle: the table in the property statement (in domain => value checked; otherwise exit 103 naming operator and both operand types in order with the names ->type() uses). Every cell is non-trivial; distinct = distinct cells");
+    ctx.set_rule("the full matrix: 15 binary operators x 8 x 8 ordered kinds (plain form), 5 arithmetic operators x 64 x 4 op-assign target forms, 35 typed contexts x 8 kinds x 2 representatives, every out-of-domain operator cell again over 2..12 look-alike values per kind (numeric strings, empty / one-element / 70-element containers, 0 / 1 / large integers; quick: one pair per cell plus a seventh of the rest), type functions x kinds; `==` / `!=` x 8 x 8 kinds with the ill-typed pair between sub-containers that already met other partners in the same comparison (5 sharing shapes, every other pair equal); oracle: the table in the property statement (in domain => value checked; otherwise exit 103 naming operator and both operand types in order with the names ->type() uses). Every cell is non-trivial; distinct = distinct cells");
     ctx.replay_corpus(None);
     let mut cases = vec![];
     operator_matrix(ctx, &mut cases);
